@@ -193,6 +193,16 @@ class E2E(Harness):
                 else:
                     obl.append((f"pkt{i}: unrecognized packet skipped", mine is None))
                     spec_y.append({"i": i, "kind": "skipped"})
+            elif skind == "unspecified":
+                # the document asks for something the properties do not specify (no terminator in the buffer, a size tag that is not whole
+                # bytes, no matching lookup entry, a non-integral adjusted size): the library documents an error, any outcome is accepted
+                warn_exact = False
+                spec_y.append({"i": i, "kind": "any"})
+                if mine is not None:
+                    k += 1
+                elif died_here:
+                    spec_end = "exc-allowed"
+                    break
             elif skind == "overread":
                 # allowed: exception, warning-flagged yield, withheld, reported/skipped as unrecognized; never clean
                 warn_exact = False
@@ -433,6 +443,11 @@ def judge(req, got):
         elif kind in ("withheld", "skipped"):
             if mine is not None:      # (an exception at a LATER packet is judged where the spec expects it)
                 return "reproduced", f"{head}: packet {i} should be {kind}; got {mine} (end {got['end']})"
+        elif kind == "any":
+            if mine is not None:
+                k += 1
+            elif died:
+                return "not-reproduced", "unspecified outcome ended in an exception (allowed)"
         elif kind == "not-clean":
             if mine is not None:
                 if mine["kind"] == "packet" and mine["pos"] == 8 * inp["lens"][i]:
